@@ -4,13 +4,15 @@ use crate::*;
 use serde_json::{json, Value};
 
 fn canvas(xs: &mut Xstate) -> Value {
-    // the host object is rendered by value through the plugin's public accessors
+    // the host object is rendered by value: its whole abstract state (size, colour, palette, pixels) through the hook,
+    // and the pixels once more through the plugin's public accessor
     if xs.get_var_value("d2-context").is_err() {
         return Value::Null;
     }
+    let full = xeh::d2_plugin::verif_canvas(xs);
     let mut buf = vec![];
     match xeh::d2_plugin::copy_rgba_data(xs, &mut buf) {
-        Ok((w, h)) => json!({"w": w, "h": h, "px": fnv(&format!("{:?}", buf))}),
+        Ok((w, h)) => json!({"w": w, "h": h, "px": fnv(&format!("{:?}", buf)), "state": full}),
         Err(_) => json!("unreadable"),
     }
 }
@@ -21,9 +23,18 @@ struct Inst {
 }
 
 fn observe(inst: &mut Inst) -> String {
-    let d = dump_json(&inst.xs.verif_dump());
-    let c = canvas(&mut inst.xs);
-    fnv(&json!({"dump": d, "canvas": c, "last": inst.last}).to_string())
+    // rendering is itself code under test: a panic while dumping (e.g. a view left behind a truncated shared buffer)
+    // is an observation like any other
+    let last = inst.last.clone();
+    let xs = &mut inst.xs;
+    match guarded(|| {
+        let d = dump_json(&xs.verif_dump());
+        let c = canvas(xs);
+        fnv(&json!({"dump": d, "canvas": c, "last": last}).to_string())
+    }) {
+        Outcome::Done(h) => h,
+        Outcome::Panic(m) => format!("render-panic:{}", fnv(&m)),
+    }
 }
 
 fn apply(inst: &mut Inst, call: &str) {
